@@ -318,6 +318,10 @@ func CloneNode(node ast.Node) ast.Node {
 		}
 		return ast.NewText(ClonePosition(n.Position), text, n.Cut)
 
+	case *ast.TypeDeclaration:
+		ident := CloneExpression(n.Ident).(*ast.Identifier)
+		return ast.NewTypeDeclaration(ClonePosition(n.Position), ident, CloneExpression(n.Type), n.IsAliasDeclaration)
+
 	case *ast.TypeSwitch:
 		var init ast.Node
 		if n.Init != nil {
